@@ -208,6 +208,13 @@ def _combinators(prog, eff, b, pos, t, depth):
         return [(pos, t, ())]
     cn = canon(t[1]).split("::")
     key = tuple(cn[-2:]) if len(cn) >= 2 else None
+    if cn[-1] in ("then_some", "then") and "bool" in canon(t[1]) and len(t[2]) == 2:
+        # c.then_some(x) / c.then(|| x): Some(x) exactly when c
+        c = deep_strip(t[2][0])
+        v = t[2][1] if cn[-1] == "then_some" else _apply(prog, eff, deep_strip(t[2][1]), ('agg', 'tuple', None, ()))
+        if v is not None:
+            return [(pos, ('agg', _ADT["Option"], 'Some', (v,)), (('bool', c, True),)),
+                    (pos, ('agg', _ADT["Option"], 'None', ()), (('bool', c, False),))]
     if key not in _COMB:
         return [(pos, t, ())]
     kind, op = key
